@@ -193,6 +193,25 @@ func TestC04Sys(t *testing.T) {
 		}
 	}
 
+	// input classes at the edges: keys from the ends of the alphabet and degenerate -bin spellings, a key without
+	// values, more than 12 values under one key, keys that differ only by letter case across calls, zero-byte values
+	edgeKeys := metadata.MD{"-": {"a"}, "_": {"b"}, ".": {"c"}, "0": {"d"}, "z": {"e"}, "Z9._-": {"f"}, "-bin": {"\x00"}, "-BIN-": {"not binary"},
+		"bin": {"g"}, "x-bin-bin": {"", "\xff"}, "empty-values": {}, "empty-string": {""}}
+	many := metadata.MD{"many": {}, "Many-Bin": {}}
+	for i := 0; i < 17; i++ {
+		many["many"] = append(many["many"], fmt.Sprintf("v%02d", i))
+		many["Many-Bin"] = append(many["Many-Bin"], string([]byte{byte(i), 0, 255}))
+	}
+	for _, k := range c08Kinds {
+		for _, fail := range []bool{false, true} {
+			scs = append(scs, c04Scenario{k: k, fail: fail, ctxMD: edgeKeys, ops: []c04Op{{"SetHeader", edgeKeys}, {"SetTrailer", edgeKeys}, {"SetTrailer", many}, {"SetHeader", many}}})
+			scs = append(scs, c04Scenario{k: k, fail: fail, ctxMD: many, deadline: true, viaGrpc: true, ops: []c04Op{{"SetHeader", many}, {"SetHeader", many}, {"SetTrailer", many}}})
+			// the same key in two letter cases across calls (joined map has both spellings)
+			scs = append(scs, c04Scenario{k: k, fail: fail, ops: []c04Op{{"SetHeader", metadata.MD{"Case-Key": {"1", "2"}, "T-Bin": {"\x01"}}}, {"SetHeader", metadata.MD{"case-key": {"3"}, "t-bin": {"\x02"}}},
+				{"SetTrailer", metadata.MD{"TR": {"a"}}}, {"SetTrailer", metadata.MD{"tr": {"b"}}}, {"SetTrailer", metadata.MD{"Tr": {"c"}}}}})
+		}
+	}
+
 	for si, sc := range scs {
 		if !anyWanted(idx, 5) {
 			idx += 5
